@@ -42,10 +42,8 @@ OPTION_KEYS = {"gapduration", "gaplength", "maxgapduration", "onstart", "onend"}
 
 
 def _branch(fn, node, test_text):
-    for (i, b) in enclosing_ifs(node, fn.node):
-        if norm(i.test) == test_text:
-            return b
-    return None
+    from .common import branch_of
+    return branch_of(fn, node, test_text)
 
 
 def backward_bound_rules(ctx: Ctx, rid: str):
